@@ -21,7 +21,18 @@ type sortKey struct {
 // keyCmp compares two cells of one sort key ignoring direction: -1, 0, 1. NULLs are handled by the caller.
 func keyCmp(kind string, a, b string) int {
 	switch kind {
-	case "ints", "nums", "floats":
+	case "ints", "nums", "floats", "bigints":
+		if xi, ok := rvStr(a).asIntStrict(); ok {
+			if yi, ok := rvStr(b).asIntStrict(); ok {
+				switch {
+				case xi < yi:
+					return -1
+				case xi > yi:
+					return 1
+				}
+				return 0
+			}
+		}
 		x, _ := rvStr(a).asFloat()
 		y, _ := rvStr(b).asFloat()
 		switch {
@@ -108,7 +119,7 @@ func c07Case(w *core.Worker, i int) {
 		cpu = r.Range(2, 8)
 	}
 	nk := r.Range(1, 3)
-	kinds := []string{"nums", "ints", "text", "dates", "floats"}
+	kinds := []string{"nums", "ints", "text", "dates", "floats", "bigints"}
 	var profs []colProfile
 	var names []string
 	for j := 0; j < nk; j++ {
